@@ -112,10 +112,11 @@ def records_for(ctx, d, rng, k, rid0):
     return recs
 
 
-def long_depths_record(ctx, d, rng, rid):
+def long_depths_record(ctx, d, rng, rid, rid_slot=0):
     """get_depths works in batches of 50000 spikes: one long recording, judged on the spikes around every batch
     boundary, at both ends and on a random sample (the definition is per spike)."""
-    ns = 100000 + int(rng.randint(1, 40))
+    # (50000 spikes per batch: a last batch of ONE spike, of none, and of a few)
+    ns = [100001, 100000][rid_slot] if rid_slot < 2 else 100000 + int(rng.randint(2, 40))
     nt, nc = 3, 4
     ds = D.random_dense(rng, ns=8, nt=nt, nc=nc, nsw=3, features=True)
     ds['samples'] = np.cumsum(rng.randint(0, 3, size=ns)) + 3
@@ -160,9 +161,9 @@ def run(ctx):
             recs += records_for(ctx, d, rng, k, len(recs) + 1)
             if ctx.abort:
                 return
-        for j in range(1 if ctx.quick else 4):
+        for j in range(2 if ctx.quick else 5):
             with ctx.guard('depths', dict(long_recording=j)):
-                recs.append(long_depths_record(ctx, d, rng, len(recs) + 1))
+                recs.append(long_depths_record(ctx, d, rng, len(recs) + 1, j))
             if ctx.abort:
                 return
     ctx.evaluations = len(recs)
